@@ -5,8 +5,11 @@ mod util;
 
 #[cfg(feature = "rq-std")]
 mod c16;
+mod c02;
+mod c03;
 mod net;
 mod netcheck;
+mod rank;
 mod sim;
 
 use util::Ctx;
@@ -39,6 +42,8 @@ fn main() {
                 #[cfg(feature = "rq-std")]
                 "matrix" => c16::replay(&ctx, &doc),
                 "net" => netcheck::replay(&ctx, &doc),
+                "block" => c02::replay(&ctx, &doc),
+                "trial" => c03::replay(&ctx, &doc),
                 e => {
                     eprintln!("HARNESS-ERROR: unknown engine {e}");
                     2
@@ -56,6 +61,8 @@ fn main() {
             match prop {
                 #[cfg(feature = "rq-std")]
                 "C16" => c16::run(&ctx),
+                "C02" => c02::run(&ctx),
+                "C03" => c03::run(&ctx),
                 "C01" => netcheck::run(&ctx, sim::Profile::C01),
                 "C08" => netcheck::run(&ctx, sim::Profile::C08),
                 "C18" => netcheck::run(&ctx, sim::Profile::C18),
